@@ -136,6 +136,20 @@ def pixels_match(fmt: str, src: bytes, got: bytes):
                 ok = False
                 break
         if ok:
+            # within those bounds the conversion still has to be ONE quantisation: every pixel of the image rounded by the
+            # same rule (down, to nearest - a mean of three integers is never a tie - or up), whichever the library uses
+            rules = {'down', 'nearest', 'up'}
+            for i in range(0, len(got), 4):
+                sm = src[i] + src[i + 1] + src[i + 2]
+                if sm % 3:
+                    fl = sm // 3
+                    fits = {'down'} if got[i] == fl else {'up'}
+                    if (sm % 3 == 1) == (got[i] == fl):
+                        fits.add('nearest')
+                    if not (rules & fits):
+                        return (f'pixel #{i // 4}: in-memory {tuple(src[i:i + 4])} (mean {sm / 3:.3f}) stored as {got[i]}, while earlier pixels '
+                                f'of the same image were rounded {"/".join(sorted(rules))}: not one quantisation rule')
+                    rules &= fits
             return None
     for i in range(0, len(got), 4):
         gp = tuple(got[i:i + 4])
@@ -200,7 +214,7 @@ def pattern(pix, start: int, count: int) -> bytes:
 BASE = {
     'w': 4, 'h': 4, 'frames': 1, 'depth': 1, 'cube': 0, 'ver': 5, 'fmt': 'RGBA8888', 'thumb': 'NONE',
     'res': 'none', 'sheet': 'none', 'sheetver': 1, 'flag': -1, 'mips': 'gen', 'pix': 0, 'ref': 0, 'bump': 0,
-    'first': 0, 'savever': 0, 'regen': -1,
+    'first': 0, 'savever': 0, 'regen': -1, 'after': 'none',
 }
 SIZES = [1, 2, 4, 8, 16, 32]
 REFS = [(0.0, 0.0, 0.0), (0.25, 0.5, 1.0), (0.1, 0.2, 0.3), (-1.5, 3.0e38, 1e-40)]
@@ -484,10 +498,29 @@ def check_mip_mean(parent: bytes, pw: int, ph: int, child: bytes, cw: int, ch: i
 # ---------------------------------------------------------------------------------------------
 # one case
 
+def _earlier_save(kind: str) -> None:
+    """What this process did with ANOTHER texture just before the case (cfg['after']): a save that fails part-way (the palette
+    format has no writer) or one that succeeds, of a texture rich in resources.  Neither may leave anything behind."""
+    other = VTF(8, 8, fmt=ImageFormats.P8 if kind == 'failed_save' else ImageFormats.BGRA4444, thumb_fmt=ImageFormats.RGB888,
+                sheet_info={0: SheetSequence([(1.0, TexCoord(0, 0, 1, 1), TexCoord(0, 0, 1, 1), TexCoord(0, 0, 1, 1), TexCoord(0, 0, 1, 1))], False, 1.0)})
+    for i in range(16):
+        other.resources[b'R%02i' % i] = Resource(0, bytes([i + 1]) * (8 + i))
+    try:
+        other.save(io.BytesIO())
+    except NotImplementedError:
+        pass
+
+
 def check_case(acc: core.Acc, dev: dict) -> None:
     cfg = full(dev)
     case = minimal(cfg)
     acc.evaluations += 1
+    if cfg['after'] != 'none':
+        try:
+            _earlier_save(cfg['after'])
+        except Exception as exc:  # noqa: BLE001
+            acc.fail('earlier_save_raised', case, f'the earlier {cfg["after"]} of another texture raised {type(exc).__name__}: {exc}')
+            return
     w, h, nframes, depth, cube = cfg['w'], cfg['h'], cfg['frames'], cfg['depth'], bool(cfg['cube'])
     minor = cfg['ver']
     fmt, thumb = cfg['fmt'], cfg['thumb']
@@ -1108,6 +1141,10 @@ def shard(cases: list) -> core.Acc:
             check_clear_levels(acc, *m['clear_size'])
         else:
             check_case(acc, m)
+            # the same case once more after this process saved another texture, unsuccessfully and successfully
+            if 'after' not in m:
+                check_case(acc, dict(m, after='failed_save'))
+                check_case(acc, dict(m, after='other_save'))
     return acc
 
 
@@ -1131,7 +1168,7 @@ def run(ctx: core.Ctx) -> None:
         f'configurations = records over {len(BASE)} dimensions (w, h in {SIZES}; frames; depth; cubemap; version 7.2-7.5; '
         f'{len(WRITABLE)} writable main formats; NONE + {len(WRITABLE)} thumbnail formats; {len(RES)} resource sets; {len(SHEETS)} sheet sets x '
         f'sheet version 0/1; each of the 31 non-ENVMAP flag bits; mips generated/explicit; pixel phase; reflectivity; bump scale; '
-        f'first frame; save(version=) override; clear_mipmaps(after)+compute_mipmaps on the re-read file); compute_mipmaps(filter) for every FilterMode on 8 sizes against the documented corner / mean rule; Frame.rescale_from between frames of two textures for 10 source sizes x every allowed target x every FilterMode; Frame.fill independence; every subset of the lower levels of a stored pyramid cleared with Frame.clear() then regenerated by compute_mipmaps() / save().  Enumerated: every record deviating from the base '
+        f'first frame; save(version=) override; each case also after a failed and after a successful save of another, resource-rich texture in the same process; grey formats: one rounding rule per image; clear_mipmaps(after)+compute_mipmaps on the re-read file); compute_mipmaps(filter) for every FilterMode on 8 sizes against the documented corner / mean rule; Frame.rescale_from between frames of two textures for 10 source sizes x every allowed target x every FilterMode; Frame.fill independence; every subset of the lower levels of a stored pyramid cleared with Frame.clear() then regenerated by compute_mipmaps() / save().  Enumerated: every record deviating from the base '
         f'(4x4, 1 frame, RGBA8888, no thumbnail, 7.5) in <= {d} dimensions, each to every alternative value, and in <= {d + 2} dimensions '
         f'over a reduced menu of boundary values ({sum(len(v) for v in ALTS_DEEP.values())} values in {len(ALTS_DEEP)} dimensions)'
         + ('' if ctx.quick else f', and in <= 4 dimensions over a medium menu ({sum(len(v) for v in ALTS_MID.values())} values in {len(ALTS_MID)} dimensions)') +
